@@ -594,4 +594,24 @@ theorem select_max_int (xs : List QP) (h : AllInt xs) (p : QP) (hs : select .max
     · exact a1 x hx
 
 
+theorem elapsed_emit_state (cfg : Cfg) (hf : cfg.fn = .elapsed) (s : TState) : (tEmit cfg s).1 = s := by
+  simp only [tEmit, hf]; split <;> rfl
+
+/-- **elapsed emits the time difference to the previous point**, in units of `cfg.n` nanoseconds, truncated
+toward zero, at the later point's time — whatever came before the two points. -/
+theorem elapsed_emits_time_difference' (cfg : Cfg) (hf : cfg.fn = .elapsed) (xs : List QP) (a b : QP) :
+    (tStep cfg (tRun cfg {} (xs ++ [a])) b).2 =
+      [{ time := some b.time, val := .int (wrap64 ((b.time - a.time).tdiv cfg.n)) }] := by
+  have h1 : tRun cfg {} (xs ++ [a]) = tAgg cfg (tRun cfg {} xs) a := by
+    simp only [tRun, List.foldl_append, List.foldl, tStep, elapsed_emit_state cfg hf]
+  rw [h1]
+  generalize tRun cfg {} xs = S
+  simp [tStep, tAgg, tEmit, hf]
+
+/-- … and nothing for the very first point. -/
+theorem elapsed_first_point_silent' (cfg : Cfg) (hf : cfg.fn = .elapsed) (a : QP) :
+    (tStep cfg {} a).2 = [] := by
+  simp [tStep, tAgg, tEmit, hf]
+
+
 end Kap.C11
